@@ -3389,6 +3389,10 @@ void Analyser::analyseModel(const ModelPtr &model)
 
 bool Analyser::addExternalVariable(const AnalyserExternalVariablePtr &externalVariable)
 {
+    if (externalVariable == nullptr) {
+        return false;
+    }
+
     if (std::find(pFunc()->mExternalVariables.begin(), pFunc()->mExternalVariables.end(), externalVariable) == pFunc()->mExternalVariables.end()) {
         pFunc()->mExternalVariables.push_back(externalVariable);
 
